@@ -36,6 +36,18 @@ oracles/jobshop_vrp_gen.py, every family draws from its own seeded stream):
                   five states that crossed a top-level operator call for the same purpose.
   numerics        job-shop durations and collinear VRPTW instances made of dyadic numbers (granule down to 2^-40) on
                   which binary64 arithmetic cannot round (certified per instance in Fractions): tolerance 0.
+Round 3, presentation diversity (same contracts; the small-scope random and the planted mid-size generators re-run with the
+problem PRESENTED in another legal way, the oracle applied to the de-presented instance):
+  record fields   Vehicle.id positional / reversed / permuted / all equal / partly duplicated / from 1 / plate numbers / negative /
+                  huge (the route of the vehicle at list position v is routes[v]; the id is a label), one Vehicle object repeated
+                  (`[Vehicle(0, cap)] * k`), capacity int / float / inf / int first and non-integral float later, max_duration
+                  absent / 0 / finite; Customer.required_vehicles 1..4 (also above the fleet size), zero-width windows, tw_end
+                  inf / 1e9, every number int / float / mixed
+  record forms    Customer positional / by keyword with defaults left out / full tuple / short tuple / list row, mixed in one list
+  containers      customers and vehicles as list / tuple, depot as tuple / list; the default fleet (vehicles = k) next to them
+  frame clauses   the caller's customers / vehicles objects are unchanged after the call; the same call repeated on the same
+                  objects gives the same Result; the first Result is untouched by the second call
+  for solve_vrptw (monitor on every operator call inside the search) and for walks of the exported operators.
 Per-call hang guard: CPU time (ITIMER_VIRTUAL), never wall clock.
 """
 from __future__ import annotations
@@ -420,7 +432,66 @@ class _VRPMonitor:
             setattr(self.mod, op, f)
 
 
+def _presented_vehicles(vm, case):
+    """Vehicle records of a presented case: [id, capacity] or [id, capacity, max_duration] rows; ids are whatever the
+    case says (the route of the vehicle at list position v is routes[v]); with present.veh_alias equal records are ONE
+    Vehicle object repeated (`[Vehicle(0, cap)] * 3`)."""
+    p = case.get("present") or {}
+    made, out = {}, []
+    for x in case["vehicles"]:
+        key = canon(x)
+        if p.get("veh_alias") and key in made:
+            out.append(made[key])
+            continue
+        obj = vm.Vehicle(x[0], unnum(x[1]), *([unnum(x[2])] if len(x) > 2 else []))
+        made[key] = obj
+        out.append(obj)
+    return out
+
+
+_CUST_DEFAULTS = (None, None, None, 0.0, 0.0, inf, 0.0, 1)
+_CUST_FIELDS = ("id", "x", "y", "demand", "tw_start", "tw_end", "service_time", "required_vehicles")
+
+
+def _build_presented(vm, case):
+    """The problem of a presented case (round 3): per-customer record form (Customer positional / Customer by keyword with
+    defaults left out / full tuple / short tuple / list row), container kinds, presented fleet."""
+    p = case["present"]
+    pc = _plain_customers(case)
+    forms = p.get("cust_form") or ["obj"]
+    customers = []
+    for i, c in enumerate(pc[1:]):
+        f = forms[i % len(forms)]
+        if f == "obj":
+            customers.append(vm.Customer(*c))
+        elif f == "kw":
+            kw = {k: v for k, v, d in zip(_CUST_FIELDS, c, _CUST_DEFAULTS) if d is None or v != d}
+            customers.append(vm.Customer(**kw))
+        elif f == "tuple":
+            customers.append(tuple(c))
+        elif f == "list":
+            customers.append(list(c))
+        elif f == "short":
+            t = tuple(c)
+            while len(t) > 3 and t[-1] == _CUST_DEFAULTS[len(t) - 1]:
+                t = t[:-1]
+            customers.append(t)
+        else:
+            raise ValueError(f"unknown customer form {f!r}")
+    if p.get("cust_box") == "tuple":
+        customers = tuple(customers)
+    v = case["vehicles"]
+    if isinstance(v, int):
+        return customers, v
+    vehicles = _presented_vehicles(vm, case)
+    if p.get("veh_box") == "tuple":
+        vehicles = tuple(vehicles)
+    return customers, vehicles
+
+
 def _build_problem(vm, case):
+    if case.get("present"):
+        return _build_presented(vm, case)
     pc = _plain_customers(case)
     if case.get("as_tuples"):
         customers = []
@@ -442,7 +513,7 @@ def _vrp_kw(case):
     """Keyword arguments of one solve_vrptw call; keys absent from the case stay at their documented defaults."""
     kw = dict(case.get("weights") or {})
     if "depot" in case:
-        kw["depot"] = tuple(case["depot"])
+        kw["depot"] = list(case["depot"]) if (case.get("present") or {}).get("depot_box") == "list" else tuple(case["depot"])
     for k in ("max_iter", "max_no_improve", "seed"):
         if k in case:
             kw[k] = case[k]
@@ -581,7 +652,7 @@ def w_vrp_solve(chunk):
 def _make_state(vm, case):
     pc, pv = _plain_customers(case), _plain_vehicles(case)
     custs = [vm.Customer(*c) for c in pc]
-    vehs = [vm.Vehicle(i, cap) for i, cap in pv]
+    vehs = _presented_vehicles(vm, case) if case.get("present") else [vm.Vehicle(i, cap) for i, cap in pv]
     st = vm.VRPState.from_problem(custs, vehs)
     st.routes = [list(r) for r in case["routes"]]
     st.unassigned = set(case["unassigned"])
@@ -1163,6 +1234,7 @@ def run_vrp_walk_case(case, fresh=True):
     if pre:
         raise AssertionError(f"generator produced a state that is not vrp_ok: {pre[:2]}")
     out = list(_score_problems(vm, st0, pc, pv, s0[0], s0[1], [{}, _PRIME_W], exact, "vrp_objective"))
+    records = ([(id(c), repr(c)) for c in st0.customers], [(id(v), repr(v)) for v in st0.vehicles])   # the caller's record lists
     states, snaps, ok = [st0], [s0], [True]
     evals, changed, longest = 0, 0, max([0] + [len(r) for r in s0[0]])
     for si, step in enumerate(case["steps"]):
@@ -1213,6 +1285,8 @@ def run_vrp_walk_case(case, fresh=True):
             states.append(res)
             snaps.append(o)
             ok.append(good)
+    if ([(id(c), repr(c)) for c in st0.customers], [(id(v), repr(v)) for v in st0.vehicles]) != records:
+        out.append(("C18/vrp_operators/frame:input-not-mutated", "the customers / vehicles lists handed to VRPState.from_problem were edited during the walk"))
     final = {"routes": snaps[-1][0], "unassigned": snaps[-1][1], "arrivals": snaps[-1][2], "sync": snaps[-1][3]}
     info = {"evals": evals, "nontrivial": changed >= 2, "final": final, "longest_route": longest, "exact": exact, "fresh": 0}
     if fresh and case.get("fresh"):
@@ -1793,6 +1867,205 @@ def vrp_history_cases(ctx, rng):
     return [scope], cases
 
 
+# =============================================================================================== round 3: presentation diversity
+# The structural generators above (small-scope random, planted mid-size) re-run with the same problem PRESENTED in another
+# legal way: the fields of the Vehicle / Customer records at unusual legal values, the records in another legal form, the
+# lists in another container.  The oracle works on the de-presented instance (plain rows, route v = list position v).
+VEH_ID_STYLES = ("positional", "reversed", "permuted", "all_zero", "one_object", "some_duplicated", "from_one", "plates",
+                 "negative", "huge", "far_duplicated")
+
+
+def _veh_ids(rng, style, k):
+    if style == "positional":
+        return list(range(k))
+    if style == "reversed":
+        return list(range(k - 1, -1, -1))
+    if style == "permuted":
+        ids = list(range(k))
+        rng.shuffle(ids)
+        return ids
+    if style in ("all_zero", "one_object"):
+        return [0] * k
+    if style == "some_duplicated":
+        return [rng.randrange(max(1, k - 1)) for _ in range(k)]
+    if style == "from_one":
+        return list(range(1, k + 1))
+    if style == "plates":
+        return [4711 + 13 * i for i in range(k)]
+    if style == "negative":
+        return [-1 - 2 * i for i in range(k)]
+    if style == "huge":
+        return [10 ** 12 + 7 * i for i in range(k)]
+    if style == "far_duplicated":
+        return [rng.choice([7, 7, 42]) for _ in range(k)]
+    raise ValueError(style)
+
+
+def _retype(rng, x, p_int=0.5):
+    """An equal number of the other numeric type where one exists (3 <-> 3.0); None (= inf) and non-integral values stay."""
+    if x is None or isinstance(x, bool) or x != x or x in (inf, -inf):
+        return x
+    if float(x).is_integer() and abs(x) < 2 ** 50:
+        return int(x) if rng.random() < p_int else float(x)
+    return x
+
+
+def _present_vrp(rng, inst, style=None):
+    """-> (customers rows, vehicles rows, depot, present dict): the instance with its record fields / forms / containers
+    drawn afresh.  Customer ids stay 1..n in list order (assumption of the check: the library indexes by id)."""
+    custs = [list(c) for c in inst["customers"]]
+    n = len(custs)
+    V = len(inst["vehicles"])
+    style = style or rng.choice(VEH_ID_STYLES)
+    ids = _veh_ids(rng, style, V)
+    caps = [v[1] for v in inst["vehicles"]]
+    if style == "one_object" or rng.random() < 0.15:
+        finite = [c for c in caps if c is not None]
+        caps = [rng.choice([None, max(finite) if finite else 5])] * V       # "three identical trucks"
+    cap_mode = rng.choice(["as_is", "retype", "mixed"])
+    vehs = []
+    for i in range(V):
+        cap = caps[i]
+        if cap_mode != "as_is":
+            cap = _retype(rng, cap, 1.0 if (cap_mode == "mixed" and i == 0) else 0.5)
+            if cap_mode == "mixed" and i > 0 and cap is not None and rng.random() < 0.5 and style != "one_object":
+                cap = float(cap) + rng.choice([0.5, 0.25])                  # int first, non-integral float later
+        row = [ids[i], cap]
+        vehs.append(row)
+    md = rng.random()
+    if md < 0.35:                                                           # max_duration: documented field, no term of the documented sum
+        dur = rng.choice([None, 0, 0.0, 5, 480.0, 1e9])
+        for i, row in enumerate(vehs):
+            row.append(dur if (style == "one_object" or rng.random() < 0.6) else rng.choice([None, 1, 60.5, 10 ** 6]))
+    # --- customers: required_vehicles 1..4, window / service / demand presentations, number types
+    rq = rng.random()
+    for i, c in enumerate(custs):
+        if rq < 0.45 and rng.random() < 0.4:
+            c[7] = rng.choice([2, 3, 3, 4, 4]) if V >= 2 else rng.choice([1, 2, 3])
+        r = rng.random()
+        if r < 0.08:
+            c[5] = c[4]                                                     # window of zero width
+        elif r < 0.14 and c[5] is None:
+            c[5] = 1e9                                                      # "no deadline" spelled as a large number
+        elif r < 0.18:
+            c[5] = None
+    nt = rng.choice(["as_is", "ints", "floats", "mixed", "mixed"])
+    if nt != "as_is":
+        for i, c in enumerate(custs):
+            late = nt == "mixed" and i >= max(1, n // 2)
+            for f in (1, 2, 3, 4, 5, 6):
+                c[f] = _retype(rng, c[f], {"ints": 1.0, "floats": 0.0, "mixed": 0.0 if late else 1.0}[nt])
+            if late and rng.random() < 0.6:                                 # int first, non-integral float later
+                f = rng.choice([1, 2, 3, 6])
+                c[f] = float(c[f]) + rng.choice([0.5, 0.25, 0.125])
+            if late and rng.random() < 0.3 and c[5] is not None:
+                c[5] = float(c[5]) + 0.5
+    depot = list(inst["depot"])
+    if nt != "as_is":
+        depot = [_retype(rng, depot[0], 0.5), _retype(rng, depot[1], 0.5)]
+    forms = [rng.choice(["obj", "obj", "kw", "tuple", "short", "list"]) for _ in range(rng.choice([1, 1, 2, 3]))]
+    present = {"veh_ids": style, "veh_alias": style == "one_object" or rng.random() < 0.4, "veh_box": rng.choice(["list", "list", "tuple"]),
+               "cust_box": rng.choice(["list", "list", "tuple"]), "cust_form": forms, "depot_box": rng.choice(["tuple", "list"]),
+               "numbers": nt, "capacities": cap_mode}
+    return custs, vehs, depot, present
+
+
+def _live_present(customers, vehicles):
+    """Everything the caller can see of the argument objects: container kind, element identity, every field."""
+    return (type(customers).__name__, [(id(c), type(c).__name__, repr(c)) for c in customers],
+            type(vehicles).__name__, vehicles if isinstance(vehicles, int) else [(id(v), repr(v)) for v in vehicles])
+
+
+def run_vrp_present_case(case):
+    """solve_vrptw on a presented problem: ONE set of argument objects, called twice with the same seed.
+    Judged: every operator call inside the search (monitor), the Result against the de-presented instance,
+    frame 'the caller's customers / vehicles objects are unchanged', 'the same call repeated gives the same answer'."""
+    import solvor.vrp as vm
+    pc, pv = _plain_customers(case), _plain_vehicles(case)
+    customers, vehicles = _build_problem(vm, case)
+    live = _live_present(customers, vehicles)
+    res, out, mon = _vrp_call(vm, customers, vehicles, case, pc, pv)
+    info = {"calls": mon.calls, "skipped": mon.skipped_pre, "longest_route": mon.longest_route, "evals": 1,
+            "nontrivial": len(case["customers"]) >= 2 and sum(mon.calls.values()) >= 2}
+    if _live_present(customers, vehicles) != live:
+        out.append(("C18/solve_vrptw/frame:input-not-mutated", "the customers / vehicles arguments were edited by the call"))
+    if res is None:
+        return out, info
+    bad, _routes = _judge_vrp_result(vm, res, pc, pv, case.get("weights") or {})
+    out += bad
+    fp = _vrp_fp(res)
+    res2, bad2, _ = _vrp_call(vm, customers, vehicles, case, pc, pv, monitor=False)
+    info["evals"] = 2
+    if res2 is None:
+        out += [(o, f"the same call repeated on the same objects: {d}") for o, d in bad2]
+    elif not _same(_vrp_fp(res2), fp):
+        out.append(("C18/solve_vrptw/history:same-call-same-answer",
+                    f"the same call on the same argument objects with the same seed gave a different Result (first vs second) in {_fp_diff(fp, _vrp_fp(res2))}"))
+    if not _same(_vrp_fp(res), fp):
+        out.append(("C18/solve_vrptw/frame:earlier-results-untouched", "the first Result changed during the second call"))
+    if _live_present(customers, vehicles) != live:
+        out.append(("C18/solve_vrptw/frame:input-not-mutated", "the customers / vehicles arguments were edited by the repeated call"))
+    return out, info
+
+
+def vrp_present_cases(ctx, rng):
+    cases = []
+    n_small, n_mid, n_walk_small, n_walk_mid = (500, 60, 400, 80) if ctx.quick else (6000, 500, 5000, 600)
+
+    def small_inst():
+        depot = rng.choice([[0, 0], [0, 0], [1, 1], [-2, 3]])
+        n = rng.choice([1, 2, 3, 3, 4, 4, 5, 6, 7])
+        V = rng.choice([1, 2, 2, 3, 3, 4, 5])
+        custs = _rand_customers(rng, n, depot, rng.choice([0.0, 0.3, 0.6]))
+        return {"customers": custs, "vehicles": [[i, rng.choice([None, None, 2, 3, 5, 8])] for i in range(V)], "depot": depot}
+
+    def mid_inst():
+        n, V = rng.randint(8, 24), rng.randint(2, 6)
+        return gen_vrp(rng, n, V, coords=rng.choice(["euclid", "grid", "cluster", "float"]), windows=rng.choice(["mixed", "loose", "tight"]),
+                       cap=rng.choice(["exact", "mixed", "slack"]), p_multi=rng.choice([0.0, 0.15, 0.3]))
+    k = 0
+    for count, make, mid in ((n_small, small_inst, False), (n_mid, mid_inst, True)):
+        for _ in range(count):
+            inst = make()
+            custs, vehs, depot, present = _present_vrp(rng, inst, VEH_ID_STYLES[k % len(VEH_ID_STYLES)])
+            k += 1
+            c = {"kind": "vrp_present", "customers": custs, "vehicles": vehs, "vehicle_capacity": None, "depot": depot, "present": present,
+                 "max_iter": _vrp_iters(len(custs), 0.04) if mid else rng.choice([0, 1, 3, 20, 60, 120]),
+                 "max_no_improve": rng.choice([5, 40, 500]), "seed": rng.randrange(10 ** 4)}
+            w = _rand_weights(rng)
+            if w:
+                c["weights"] = w
+            if rng.random() < 0.15:
+                c["stop_at"] = rng.choice([1, 2, 5, 12])
+                c["max_iter"] = max(c["max_iter"], 20)
+            if rng.random() < 0.08:                  # the default fleet (vehicles = k [, vehicle_capacity]) next to the presented ones
+                c["vehicles"], c["vehicle_capacity"] = len(vehs), rng.choice([None, 3, 8.5])
+                if c["vehicle_capacity"] is None:
+                    del c["vehicle_capacity"]
+            cases.append(c)
+    for count, make, mid in ((n_walk_small, small_inst, False), (n_walk_mid, mid_inst, True)):
+        for _ in range(count):
+            inst = make()
+            custs, vehs, depot, present = _present_vrp(rng, inst, VEH_ID_STYLES[k % len(VEH_ID_STYLES)])
+            k += 1
+            pinst = {"customers": custs, "vehicles": vehs, "depot": depot, "planted": inst.get("planted")}
+            start = "planted" if (mid and rng.random() < 0.5) else "greedy"
+            cases.append(_walk_case(rng, pinst, start, rng.randint(4, 12) if not mid else rng.randint(6, 12), "vrp_present", present=present))
+    scope = dict(name="VRPTW presentation diversity (record fields, record forms, containers)", cases=len(cases),
+                 generators="the small-scope random generator (1..7 customers, 1..5 vehicles) and the planted mid-size generator (8..24 customers, 2..6 vehicles)",
+                 vehicle_ids=list(VEH_ID_STYLES), vehicle_fields="capacity int / float / inf, int first and non-integral float later, one capacity for all; "
+                 "max_duration absent / 0 / finite / 1e9; one Vehicle object repeated (`[Vehicle(0, cap)] * k`); fleet given as list / tuple / int (default path)",
+                 customer_fields="required_vehicles 1..4 (also above the fleet size); zero-width windows, tw_end = inf / 1e9; every number as int / float / "
+                 "int first and non-integral float later; Customer positional / by keyword with defaults left out / full tuple / short tuple / list row, mixed in one list; "
+                 "customers as list / tuple; depot as tuple / list of int / float",
+                 judged="solve_vrptw (called twice on the same objects: monitor on every operator call, Result re-scored on the de-presented instance, arguments "
+                        "unchanged, second answer == first) and walks of the exported operators on VRPState.from_problem(customers, presented fleet)",
+                 left_out="customer ids other than 1..n in list order (the library indexes its customer list by id: outside the check's assumption); "
+                          "one-shot iterators for customers / vehicles (the signature says list); string ids (the records are typed int)")
+    return [scope], cases
+
+
+
 # =============================================================================================== driver
 def _chunks(lst, size):
     return [lst[i:i + size] for i in range(0, len(lst), size)]
@@ -1801,9 +2074,9 @@ def _chunks(lst, size):
 R2_FAMILIES = [("js_ladder", "js_ladder_cases"), ("js_options", "js_option_cases"), ("js_long", "js_long_cases"),
                ("js_numeric", "js_numeric_cases"), ("js_history", "js_history_cases"), ("vrp_ladder", "vrp_ladder_cases"),
                ("vrp_options", "vrp_option_cases"), ("vrp_long", "vrp_long_cases"), ("vrp_numeric", "vrp_numeric_cases"),
-               ("vrp_history", "vrp_history_cases")]
+               ("vrp_history", "vrp_history_cases"), ("vrp_present", "vrp_present_cases")]
 _R2_HEAVY = {"js_ladder", "js_long", "vrp_ladder", "vrp_long"}       # one case per task, largest first
-_R2_CHUNK = {"js_options": 6, "js_numeric": 12, "js_history": 2, "vrp_options": 4, "vrp_numeric": 12, "vrp_history": 2}
+_R2_CHUNK = {"js_options": 6, "js_numeric": 12, "js_history": 2, "vrp_options": 4, "vrp_numeric": 12, "vrp_history": 2, "vrp_present": 12}
 
 
 def _case_weight(case):
@@ -1895,7 +2168,7 @@ def run(ctx: Ctx):
                     fs[k] = fs.get(k, 0) + v
     for lst in (js_cases, so_cases, op_cases):
         samples += [lst[0], lst[len(lst) // 2], lst[-1]]
-    for fam in ("js_history", "vrp_numeric", "vrp_history"):
+    for fam in ("js_history", "vrp_numeric", "vrp_history", "vrp_present"):
         if r2_cases[fam]:
             samples.append(min(r2_cases[fam], key=lambda c: len(canon(c))))
     ctx.count(0, (), samples)
@@ -1920,7 +2193,10 @@ def run(ctx: Ctx):
                 "operator walks that keep and revisit every state; each answer judged for the input as it is at that call, compared with the same call "
                 "on fresh objects and with a fresh interpreter); exact-arithmetic numerics (dyadic values down to 2^-40, tolerance 0). Non-trivial there = "
                 "a history / walk with at least two effective steps, a solve with at least two operator calls, a swap probe that changed the schedule; "
-                "an evaluation = one solver call, operator call or swap call")
+                "an evaluation = one solver call, operator call or swap call. Presentation diversity (round 3, own stream): the small-scope random and the "
+                "planted mid-size VRPTW generators with the Vehicle / Customer record fields, record forms and containers drawn afresh per instance "
+                "(vehicle id style cycled over " + ", ".join(VEH_ID_STYLES) + "); solve_vrptw called twice on the same objects and operator walks; "
+                "the oracle sees the de-presented rows (route v = list position v)")
     ctx.assumptions += [
         "customer ids are 1..n in list order (solve_vrptw indexes its customer list by id; the docs' examples do the same)",
         "job-shop durations are non-negative numbers (integers, or floats whose sums are exact in binary64 - the fine-grained family) and every job "
@@ -1934,6 +2210,9 @@ def run(ctx: Ctx):
         "overlap on a machine = the two processing intervals share a stretch of positive length (a zero-duration operation overlaps nothing)",
         "'seed: random seed for reproducibility' (docs): a call with an explicit seed gives the same Result on reused objects, on fresh equal objects "
         "and in a fresh interpreter (PYTHONHASHSEED is fixed by ./check); an operator call does not modify any state other than the one it returns",
+        "Vehicle.id is a label: the route of the vehicle at list position v is routes[v] (VRPState.routes is documented as one route per vehicle, "
+        "solve_vrptw(vehicles=k) numbers its own fleet by position); Vehicle.max_duration is a documented field that is no term of the documented "
+        "weighted sum; a tuple of Vehicle / Customer records is accepted like a list; presentation of a number (3 vs 3.0) does not change the instance",
         "job_shop._try_swap (anchor 'adjacent swap followed by a full greedy rebuild') maps a valid schedule to a valid schedule or None, whoever built the input",
     ]
     ctx.trusted += ["oracles/jobshop_vrp.py (plain recomputation; no solvor import)", "oracles/jobshop_vrp_gen.py (planted instances, certified by "
@@ -1972,6 +2251,8 @@ def run_case_info(case):
         bad, info = run_vrp_history_case(case)
     elif k == "vrp_walk":
         bad, info = run_vrp_walk_case(case)
+    elif k == "vrp_present":
+        bad, info = run_vrp_present_case(case)
     else:
         raise ValueError(f"unknown case kind {k!r}")
     return bad, info
